@@ -68,3 +68,11 @@ func ZZ_C03_EvalVsList_NP() {
 	vf_Assert(err == nil, "engine-built")
 	zzCheckEvalOnePair(g, pe)
 }
+
+// C03: eval agrees with list (and the oracle) on admin rules with a port name, for every ordered pair
+func ZZ_C03_EvalVsList_AdmNamedPort() {
+	g := zzAdmNamedPortWorld()
+	pe, err := NewPolicyEngineWithObjects(g.Objs)
+	vf_Assert(err == nil, "engine-built")
+	zzCheckEvalOnePair(g, pe)
+}
